@@ -368,7 +368,10 @@ def witness_search(tier, seed):
     texts = ["#VERSION:0.83;\n#TITLE:a;\n#NOTEDATA:;\n#STEPSTYPE:x;\n#NOTES:0000;\n#CREDIT:late;\n",
              "#TITLE:a;#title:b;#Attacks:x:y;#ARTIST;\n#NOTES:a:b:c:d:e:f:g;\n#SUBTITLE:s;",
              "#version:1;#TITLE:t;", "", "#TITLE:a;\n#NOTES:a:b;",
-             "#VERSION:0.83;#DISPLAYBPM:1:2;#NOTEDATA:;#DISPLAYBPM:90:180;#ATTACKS:a:b:c;#attacks;#NOTES:0000;#NOTEDATA:;#ATTACKS:x:y;"]
+             "#VERSION:0.83;#DISPLAYBPM:1:2;#NOTEDATA:;#DISPLAYBPM:90:180;#ATTACKS:a:b:c;#attacks;#NOTES:0000;#NOTEDATA:;#ATTACKS:x:y;",
+             # multi-value properties whose first component is empty (a falsy value that is not "no value")
+             "#DISPLAYBPM::180;#ATTACKS::TIME=1.5:LEN=2:MODS=drunk;#TITLE::t;",
+             "#VERSION:0.83;#ATTACKS::;#NOTEDATA:;#DISPLAYBPM::90;#ATTACKS::a;#NOTES:0000;"]
     for text, stray, strict in itertools.product(texts, ("", "junk\n"), (True, False)):
         for fk, en, nm in (("StringIO", "load", None), ("lines", "load", None), ("string", "loads", None),
                            ("string", "ctor-string", None), ("StringIO", "ctor-file", None),
